@@ -452,7 +452,7 @@ HUGE = {
 }
 
 HUGE_SIZES_QUICK = [254, 255, 256, 257, 300]
-HUGE_BIG_QUICK = {"loop_body": [40000], "straight": [33000], "if_jump": [33000], "consts_spread": [3400], "tbl_plain": [66000], "args": [300, 66000], "long_string": [1000000], "lines": [1000000]}
+HUGE_BIG_QUICK = {"loop_body": [40000], "straight": [33000], "if_jump": [33000], "consts_spread": [3400], "tbl_plain": [66000], "args": [300, 66000], "long_string": [200000], "lines": [200000]}
 HUGE_SIZES_THOROUGH = [2, 100, 200, 250, 253, 254, 255, 256, 257, 258, 300, 511, 512, 1000, 8190, 16383, 16384, 32766, 32767,
                        32768, 33000, 40000, 65534, 65535, 65536, 65537, 70000, 131072]
 # templates whose cost is quadratic or that are pointless beyond a size
@@ -507,7 +507,7 @@ def gen_sources(rng, tier):
             src, exp = fn(d)
             out.append(("nest", "%s:%d" % (name, d), src.encode(), exp))
     if tier == "quick":
-        for name, d in (("paren", 300000), ("neg", 300000), ("method", 10000), ("if", 20000)):
+        for name, d in (("paren", 160000), ("neg", 160000), ("method", 10000), ("if", 20000)):
             src, exp = NEST[name](d)
             out.append(("nest", "%s:%d" % (name, d), src.encode(), exp))
     sizes = HUGE_SIZES_QUICK if tier == "quick" else HUGE_SIZES_THOROUGH
@@ -763,7 +763,8 @@ def run(tier, seed):
                 ck.violation("register allocator panics with a non-compile error", {"kind": "Go!=S", "engine": "lim", "case": llines[i][:4000], "impl": out})
             elif cls == "E":
                 ws = [int(x, 16) for x in out.split()[2].split(",")] if out.split()[2] != "" else []
-                if any(spec_decode(w)["a"][1] >= 255 for w in ws):
+                if any(spec_decode(w)["a"][1] >= 255 for w in ws) and ck.cov["distribution"].get("viol:ra255", 0) < 2:
+                    ck.count("viol:ra255")
                     ck.violation("register index 255 handed out", {"kind": "Go!=S", "engine": "lim", "case": llines[i][:4000], "impl": out})
         elif inr:
             if not lim_spec_ok(c, out):
@@ -832,7 +833,7 @@ def run(tier, seed):
              % (len(NEST), len(HUGE), len(POOL_LABELS), len(RECURSION)),
         trusted_base=TRUSTED,
         assumptions=["exploration is sampling, not proof: absence of a crash in the explored streams says nothing about other inputs",
-                     "quick tier: Go's per-goroutine stack limit is lowered to 64 MB in the recursion/nesting cases so that unbounded Go recursion shows "
+                     "quick tier: Go's per-goroutine stack limit is lowered to 32 MB in the recursion/nesting cases so that unbounded Go recursion shows "
                      "as a fatal stack overflow within seconds; a crash seen only under the lowered limit is re-run with the default 1 GB before it is reported",
                      "library sweep runs each call inside runtime.callcontext{kill cpu=2e6, memory=3e7, flags=iosafe} + pcall; functions with outside effects are skipped: "
                      + SWEEP_SKIP.pattern])
@@ -856,7 +857,7 @@ def explore(ck, lr, tier):
     for i, (fam, label, src, exp, opts) in enumerate(cases):
         lines.append("s%d %s cpu=300000000 mem=2000000000 %s" % (i, lua_hex(src), opts))
     ck.log("source streams: %d cases" % len(lines))
-    outs = lr.run(lines, timeout=(30 if quick else 600), maxstack=(64 << 20) if quick else None)
+    outs = lr.run(lines, timeout=(30 if quick else 600), maxstack=(32 << 20) if quick else None)
     for i, (fam, label, src, exp, opts) in enumerate(cases):
         res = parse_lua(outs[i]) if i < len(outs) else {"status": "?", "raw": ""}
         ck.case(src[:5000].hex() + str(len(src)), True)
@@ -931,9 +932,9 @@ def explore(ck, lr, tier):
     # ---- (c) recursion / explosion
     rl = []
     for i, (label, fam, src) in enumerate(RECURSION):
-        rl.append("r%d %s cpu=20000000 mem=30000000" % (i, lua_hex(src)))
+        rl.append("r%d %s cpu=%d mem=20000000" % (i, lua_hex(src), 5000000 if quick else 50000000))
     ck.log("recursion templates")
-    routs = lr.run(rl, timeout=(12 if quick else 400), maxstack=(64 << 20) if quick else None)
+    routs = lr.run(rl, timeout=(12 if quick else 400), maxstack=(32 << 20) if quick else None)
     for i, (label, fam, src) in enumerate(RECURSION):
         res = parse_lua(routs[i]) if i < len(routs) else {"status": "?"}
         ck.case("rec " + src, True)
@@ -972,7 +973,7 @@ def judge(ck, lr, fam, label, src, exp, res, line, quick):
             o = lr.run([line], timeout=240)
             res2 = parse_lua(o[0])
             if res2["status"] not in ("gopanic", "CRASH", "HANG"):
-                ck.count("needs-more-than-64MB-stack")
+                ck.count("needs-more-than-32MB-stack")
                 return 0
             res = res2
             st = res["status"]
